@@ -180,7 +180,10 @@ func MakeReplayer[J any](prop, level string, pool func() *kernel.Pool, run func(
 			fmt.Println("replay: property held")
 			return 0
 		}
-		fmt.Printf("replay: %s\n  %s\n", res.FP, res.What)
+		// the recorded fingerprint first if this execution shows it again, then everything else it shows
+		for _, f := range res.all() {
+			fmt.Printf("replay: %s\n  %s\n", f.FP, f.What)
+		}
 		return 1
 	}
 }
